@@ -175,9 +175,38 @@ def typed(value, cast):
     return np.float64(value)
 
 
+# KSWIN hands the sample it drew and the newest values to `scipy.stats.ks_2samp`: the call is observed at that library boundary (like the scripted `requests` of C20),
+# so that WHICH values were tested is known whatever random generator the detector draws from.  The spy forwards to the real function.
+KS_CALLS: list = []
+try:
+    import frouros.detectors.concept_drift.streaming.window_based.kswin as _kswin_mod
+    if hasattr(_kswin_mod, "ks_2samp") and not getattr(_kswin_mod.ks_2samp, "_verif_spy", False):
+        _real_ks_2samp = _kswin_mod.ks_2samp
+
+        def _ks_spy(*a, **kw):
+            try:
+                d1 = a[0] if len(a) > 0 else kw.get("data1")
+                d2 = a[1] if len(a) > 1 else kw.get("data2")
+                KS_CALLS.append(([float(v) for v in d1], [float(v) for v in d2]))
+            except Exception:  # noqa: BLE001
+                KS_CALLS.append(None)
+            return _real_ks_2samp(*a, **kw)
+        _ks_spy._verif_spy = True
+        _kswin_mod.ks_2samp = _ks_spy
+except Exception:  # noqa: BLE001
+    pass
+
+
 class Runner:
     """Runs one real detector, recording the model's operation lines and the implementation's
     observation after every operation."""
+
+    @property
+    def own_generator(self) -> bool:
+        """KSWIN only: the window has been full for some updates and NONE of them moved NumPy's global generator - the detector draws from a generator of its own.
+        Only then are comparisons that start two instances from equal states of the GLOBAL generator meaningless (a broken assumption of the check, not a verdict);
+        a detector that does touch the global generator - in whatever way - is a deterministic function of that state and IS comparable."""
+        return self.cls == "KSWIN" and self.full_updates > 0 and not self.global_touched
 
     def __init__(self, inst: str, cls: str, params: dict, callbacks=None, config=None):
         self.inst, self.cls, self.params = inst, cls, dict(params)
@@ -186,6 +215,7 @@ class Runner:
         self.err = None
         self.det = None
         self.tape_ok = True
+        self.global_touched, self.full_updates, self.ks_call = False, 0, None
         # value TYPE: most runs feed Python numbers, a deterministic 1 in 3 feeds the NumPy scalars detectors see in practice
         # (elements of `(y_pred != y_true).astype(int)` or of a float64 array); the model line is the same number either way
         h = zlib.crc32(repr((cls, sorted((k, repr(v)) for k, v in params.items()))).encode()) % 12
@@ -212,6 +242,8 @@ class Runner:
         if self.cls == "KSWIN":
             full = len(d.window) + 1 >= d.config.min_num_instances
             st = np.random.get_state() if full else None
+            del KS_CALLS[:]
+            self.ks_call = None
         try:
             logs = d.update(value=typed(value, self.cast), **kw)
         except Exception as e:  # noqa: BLE001
@@ -219,8 +251,13 @@ class Runner:
             self.lines.append(f"u {self.inst} {f2h(value)}")
             self.obs.append(["err:" + err_kind(e)])
             return None
+        if self.cls == "KSWIN":
+            self.ks_call = KS_CALLS[-1] if len(KS_CALLS) == 1 else None      # the (sample, newest) pair of THIS update, when the detector made exactly one KS test
         if self.cls == "KSWIN" and st is not None:
             after = np.random.get_state()
+            # did this update leave NumPy's global generator where it was?  (a detector with its own generator never touches it)
+            self.global_touched = self.global_touched or not (st[0] == after[0] and st[2:] == after[2:] and bool(np.array_equal(st[1], after[1])))
+            self.full_updates += 1
             np.random.set_state(st)
             n_old = len(d.window) - d.config.num_test_instances
             tape = np.random.choice(n_old, d.config.num_test_instances, replace=False)
